@@ -99,7 +99,7 @@ def build(case):
                                  "replacement": False}}})
     dd = {}
     for c in case["contests"]:
-        d = {"name": c["id"], "risk_limit": dec(c["risk_limit"]), "cards": len(case["cvrs"]),
+        d = {"name": c["id"], "risk_limit": dec(c["risk_limit"]), "cards": c.get("cards", len(case["cvrs"])),
              "choice_function": c["choice_function"], "n_winners": c["n_winners"],
              "candidates": list(c["candidates"]), "winner": list(c["winner"]),
              "audit_type": c["audit_type"], "use_style": a["use_style"],
